@@ -562,6 +562,7 @@ func streamLimit(c *Ctx) {
 	}
 	unaryLengthProbes(c)
 	unaryEncodedBulkProbes(c)
+	compressedTerminatorProbes(c)
 	// random mixes
 	nRand := 400
 	if c.Thorough() {
@@ -689,6 +690,70 @@ func unaryEncodedBulkProbes(c *Ctx) {
 					c.Fail("limit-encoded-bulk-buffered", desc, fmt.Sprintf("allocated %d bytes", alloc), "receiver buffered far more than its read limit from the wire because the body names a Content-Encoding")
 				}
 			}
+		}
+	}
+}
+
+// compressedTerminatorProbes (oracle only): the end-of-stream envelope of Connect streams and the
+// trailer frame of gRPC-Web may be compressed like any other envelope; the read limit bounds
+// what the receiver inflates from them as it does for messages (a peer must not be able to make
+// a client with an N-byte limit buffer, parse and hand on megabytes by setting one more flag).
+func compressedTerminatorProbes(c *Ctx) {
+	const n = 65536
+	big := strings.Repeat("a", 16<<20)
+	for _, proto := range []string{"connect", "grpcweb"} {
+		var plain []byte
+		flags := byte(0x03)
+		ct := "application/connect+raw"
+		encH := "Connect-Content-Encoding"
+		if proto == "connect" {
+			plain = []byte(`{"metadata":{"X-Big":["` + big + `"]}}`)
+		} else {
+			plain = []byte("grpc-status: 0\r\nx-big: " + big + "\r\n")
+			flags, ct, encH = 0x81, "application/grpc-web+raw", "Grpc-Encoding"
+		}
+		var zbuf bytes.Buffer
+		zw := gzip.NewWriter(&zbuf)
+		_, _ = zw.Write(plain)
+		_ = zw.Close()
+		body := append(frame(0, []byte{1, 2}), frame(flags, zbuf.Bytes())...)
+		desc := fmt.Sprintf("%s server stream: one message, then a gzip-compressed terminator of %d bytes on the wire inflating to %d, client max=%d", proto, zbuf.Len(), len(plain), n)
+		var alloc uint64
+		got := safely(func() string {
+			bc := &bodyClient{status: 200, header: http.Header{"Content-Type": {ct}, encH: {"gzip"}}, body: io.NopCloser(bytes.NewReader(body))}
+			opts := []connect.ClientOption{connect.WithCodec(rawCodec{"raw"}), connect.WithReadMaxBytes(n)}
+			if proto == "grpcweb" {
+				opts = append(opts, connect.WithGRPCWeb())
+			}
+			cl := connect.NewClient[[]byte, []byte](bc, "http://h/s/m", opts...)
+			runtime.GC()
+			var before, after runtime.MemStats
+			runtime.ReadMemStats(&before)
+			st, err := cl.CallServerStream(context.Background(), connect.NewRequest(&[]byte{1}))
+			if err != nil {
+				return "call: " + err.Error()
+			}
+			msgs := 0
+			for st.Receive() {
+				msgs++
+			}
+			delivered := len(st.ResponseTrailer().Get("X-Big"))
+			if ce := new(connect.Error); errors.As(st.Err(), &ce) {
+				if l := len(ce.Meta().Get("X-Big")); l > delivered {
+					delivered = l
+				}
+			}
+			runtime.ReadMemStats(&after)
+			alloc = after.TotalAlloc - before.TotalAlloc
+			_ = st.Close()
+			return fmt.Sprintf("msgs=%d err=%s trailer-bytes-delivered=%d", msgs, codeOrOK(st.Err()), delivered)
+		})
+		c.Count("compressed-terminator-probe")
+		if !strings.HasSuffix(got, "trailer-bytes-delivered=0") || strings.Contains(got, "err=none") {
+			c.Fail("limit-oversize-delivered", desc, got, "a terminator that inflates far beyond the read limit was accepted and its contents handed to the application")
+		}
+		if alloc > uint64(8*n+(4<<20)) {
+			c.Fail("limit-encoded-bulk-buffered", desc, fmt.Sprintf("allocated %d bytes", alloc), "receiver inflated far more than its read limit from one envelope")
 		}
 	}
 }
